@@ -206,6 +206,14 @@ def request_mutants(xml, typ, signed, deep):
     yield "destination-foreign", "addressing", d.set_attr(root, "Destination", "https://attacker.example.net/sso").text()
     yield "destination-removed", "addressing", d.set_attr(root, "Destination", None).text()
     yield "destination-empty", "addressing", d.set_attr(root, "Destination", "").text()
+    own_dest = root.attrs.get("Destination")
+    if own_dest:
+        # the receiver's own endpoint with reserved characters percent-encoded: another URL (a "/" and "%2F" are not the same thing)
+        k = own_dest.rfind("/")
+        yield "destination-percent-encoded:last-slash", "addressing", d.set_attr(root, "Destination", own_dest[:k] + "%2F" + own_dest[k + 1:]).text()
+        yield "destination-percent-encoded:last-slash-lower", "addressing", d.set_attr(root, "Destination", own_dest[:k] + "%2f" + own_dest[k + 1:]).text()
+        yield "destination-percent-encoded:scheme-colon", "addressing", d.set_attr(root, "Destination", own_dest.replace("://", "%3A//", 1)).text()
+        yield "destination-percent-encoded:double", "addressing", d.set_attr(root, "Destination", own_dest[:k] + "%252F" + own_dest[k + 1:]).text()
     now = time.time()
     yield "issue-instant-stale", "time", d.set_attr(root, "IssueInstant", clock.iso(now - 3 * 86400)).text()
     yield "issue-instant-future", "time", d.set_attr(root, "IssueInstant", clock.iso(now + 3 * 86400)).text()
